@@ -263,6 +263,9 @@ class LSMTree(Entity):
         self._user_bytes_written: int = 0
         self._sstable_bytes_written: int = 0
 
+        # WAL sequences appended to the log but not yet applied to a memtable
+        self._wal_in_flight: set[int] = set()
+
         # Stats
         self._total_writes: int = 0
         self._total_reads: int = 0
@@ -347,7 +350,10 @@ class LSMTree(Entity):
 
         # WAL append
         if self._wal is not None:
+            seq = self._wal._next_sequence
+            self._wal_in_flight.add(seq)
             yield from self._wal.append(key, value)
+            self._wal_in_flight.discard(seq)
             self._total_wal_writes += 1
 
         # Memtable put
@@ -459,7 +465,10 @@ class LSMTree(Entity):
         self._logical_data.pop(key, None)
 
         if self._wal is not None:
+            seq = self._wal._next_sequence
+            self._wal_in_flight.add(seq)
             yield from self._wal.append(key, _TOMBSTONE)
+            self._wal_in_flight.discard(seq)
             self._total_wal_writes += 1
 
         is_full = yield from self._memtable.put(key, _TOMBSTONE)
@@ -516,6 +525,11 @@ class LSMTree(Entity):
         )
         self._memtable.set_clock(self._clock)
 
+        # WAL entries up to this bound are all contained in the memtable being
+        # flushed (or in earlier ones). Entries appended during the suspension
+        # below go to the new memtable and must stay in the log.
+        wal_bound = self._wal_checkpoint_bound()
+
         # Flush to SSTable
         sstable = old_memtable.flush()
         self._sstable_bytes_written += sstable.size_bytes
@@ -536,7 +550,7 @@ class LSMTree(Entity):
 
         # Truncate WAL
         if self._wal is not None:
-            self._wal.truncate(self._wal._next_sequence - 1)
+            self._wal.truncate(wal_bound)
 
         logger.debug(
             "[%s] Flushed memtable to L0 SSTable(%d keys), L0 now has %d SSTables",
@@ -548,6 +562,12 @@ class LSMTree(Entity):
         # Check if compaction needed
         if self._compaction_strategy.should_compact(self._levels):
             yield from self._compact()
+
+    def _wal_checkpoint_bound(self) -> int:
+        """Highest WAL sequence whose entry, and all earlier ones, are in a memtable."""
+        if self._wal is None:
+            return 0
+        return min(self._wal_in_flight, default=self._wal._next_sequence) - 1
 
     def _flush_memtable_sync(self) -> None:
         """Flush without yielding latency."""
@@ -562,7 +582,7 @@ class LSMTree(Entity):
         # Reset memtable (flush() already clears it)
 
         if self._wal is not None:
-            self._wal.truncate(self._wal._next_sequence - 1)
+            self._wal.truncate(self._wal_checkpoint_bound())
 
         if self._compaction_strategy.should_compact(self._levels):
             self._compact_sync()
